@@ -63,6 +63,11 @@ func (jenny RawTypes) genFilesForSchema(schema *ast.Schema) (codejen.Files, erro
 	files := make(codejen.Files, 0)
 	scalars := make(map[string]ast.ScalarType)
 
+	// the package of the schema is a segment of the Java package its classes are declared in
+	if pkg := formatPackageName(schema.Package); !isValidPackageSegment(pkg) {
+		return nil, fmt.Errorf("[%s] '%s' can not be part of the name of a Java package: an identifier that is not a keyword is expected", schema.Package, pkg)
+	}
+
 	packageMapper := func(pkg string, class string) string {
 		if jenny.imports.IsIdentical(pkg, schema.Package) {
 			return ""
